@@ -354,6 +354,10 @@ def shards(tier, seed):
         out.append(dict(kind='time', part=k, parts=4,
                         stride=5 if tier == 'quick' else 1))
     out.append(dict(kind='workbook'))
+    # every month of the calendar, walked forwards and backwards (the month
+    # a shard meets first must not matter: February 1900 vs 2300, 2700, ...)
+    for k in range(4):
+        out.append(dict(kind='months', part=k % 2, parts=2, reverse=k >= 2))
     n_h = 4 if tier == 'quick' else 16
     for k in range(n_h):
         out.append(dict(kind='hyp', seed=seed * 1000 + k,
@@ -381,6 +385,25 @@ def run_shard(shard, rec):
         if shard['stride'] == 1:
             rec.exhaustive.append(
                 f'every serial 0..{MAX_SERIAL} (part {shard["part"]})')
+    elif kind == 'months':
+        ends = [31]                       # 1900-01-31
+        while True:
+            nxt = model_eomonth(ends[-1], 1)
+            if not isinstance(nxt, int):
+                break
+            ends.append(nxt)
+        if shard['reverse']:
+            ends.reverse()
+        # both walks start with their own end of the calendar, then take
+        # their share of the months
+        mine = ends[:30] + ends[30:][shard['part']::shard['parts']]
+        for n in mine:
+            check_shift(ctx, n, 1)
+            check_shift(ctx, n, 0)
+        rec.exhaustive.append(
+            f'EOMONTH/EDATE from the last day of every month 1900-01 .. '
+            f'9999-12 ({"backwards" if shard["reverse"] else "forwards"}, '
+            f'part {shard["part"]})')
     elif kind == 'boundaries':
         for n in BOUNDARY_SERIALS:
             check_serial(ctx, n)
